@@ -161,9 +161,10 @@ def dump(rig, d, stub, fs, st):
     allsent = b''.join(x.sent for x in rig.socks)
     w = allsent[st.wpos:]; st.wpos = len(allsent)
     ob = d.outbuffer if isinstance(d.outbuffer, bytes) else d.outbuffer.encode('utf-8', 'surrogatepass')
+    ib = d.inbuffer if isinstance(d.inbuffer, bytes) else d.inbuffer.encode('utf-8', 'surrogatepass')   # (a str buffer is a change of representation, shown as its bytes)
     s = 'c%d z%d x%d k%d r%d e%d ep%d ob=%s ib=%s w=%s q=%d f=%s' % (
         d.connected, d.zombie, st.name in rig.drivers._deadDrivers, rig.sock._closed,
-        d.nextReconnectTime is not None, d.eagains, len(rig.socks) - 1, ob.hex(), d.inbuffer.hex(), w.hex(), len(stub.q),
+        d.nextReconnectTime is not None, d.eagains, len(rig.socks) - 1, ob.hex(), ib.hex(), w.hex(), len(stub.q),
         ';'.join(enc_msg(m) for m in fed) if fed else '-')
     if st.crash:
         s += ' crash=' + st.crash
